@@ -250,6 +250,50 @@ def ref_parse(family, value):
 OFFERS = ["text/html", "application/json", "text/*", "*/*", "bogus", "a/b;c=d", "", "text/html;q=0.5", "TEXT/Html"]
 
 
+def _offer_pool():
+    """Media-type offers, well-formed and not: every type x subtype over tokens that merely CONTAIN the wildcard or
+    other unusual tchars, with parameter tails (quoted, spaced, a q parameter) and some malformed spellings."""
+    toks = ["text", "*", "a*", "*b", "x-*", "vnd.a+json", "A", "!#$%&'+-.^_`|~9", "x*y*"]
+    tails = ["", ";level=1", ';charset="a b"', "; q=0.5", ";Q=1", " ; x=y", ';a="\\""', ";b=1;a=2", ";x"]
+    pool = []
+    for t in toks:
+        for u in toks:
+            for tail in tails:
+                pool.append(t + "/" + u + tail)
+    pool += ["", "bogus", "a/b/c", "a/", "/b", "a /b", "a/ b", "a/b;", "a/b;c", "\u00e9/b", "a/b;c=d;", "a/b,c/d", " a/b", "a/b "]
+    return pool
+
+
+OFFER_POOL = _offer_pool()
+
+
+def offers_for(value):
+    """A deterministic sample of the pool per header value (replayable without a PRNG state)."""
+    import zlib
+    h = zlib.crc32(repr(value).encode("utf-8", "backslashreplace"))
+    return OFFERS + [OFFER_POOL[(h + 131 * i) % len(OFFER_POOL)] for i in range(10)]
+
+
+def oracle_offer_pool():
+    """The whole pool once, on an invalid and on a no-header Accept object."""
+    from webob import acceptparse as ap
+    want = [(o, 1.0) for o in OFFER_POOL if ref_is_media_type(o)]
+    for value in ("a/b;q=2", None, ""[:0] + ", ,x"):
+        obj = ap.create_accept_header(value)
+        if type(obj).__name__ == "AcceptValidHeader":
+            continue
+        try:
+            got = obj.acceptable_offers(OFFER_POOL)
+        except Exception as e:  # noqa
+            return ("invalid-acceptable-offers", "%s.acceptable_offers(pool) raised %s" % (type(obj).__name__, type(e).__name__), value)
+        if got != want:
+            diff = [o for o in OFFER_POOL if ((o, 1.0) in got) != ((o, 1.0) in want)]
+            return ("invalid-acceptable-offers", "%s.acceptable_offers: %r is %s but is %sa well-formed media type offer"
+                    % (type(obj).__name__, diff[0] if diff else "(order)", "accepted" if diff and (diff[0], 1.0) in got else "dropped",
+                       "" if diff and (diff[0], 1.0) in want else "not "), value)
+    return None
+
+
 def oracle_object(family, value):
     """create_*: never raises; class follows validity; invalid/no-header objects behave as the statement says."""
     from webob import acceptparse as ap
@@ -283,8 +327,9 @@ def oracle_object(family, value):
     if bool(obj) or obj.parsed is not None or obj.header_value != value:
         return ("invalid-object", "%s for %r: bool/parsed/header_value = %r/%r/%r" % (kind, value, bool(obj), obj.parsed, obj.header_value))
     if family == "accept":
-        got = obj.acceptable_offers(OFFERS)
-        want_offers = [(o, 1.0) for o in OFFERS if ref_is_media_type(o)]
+        offers = offers_for(value)
+        got = obj.acceptable_offers(offers)
+        want_offers = [(o, 1.0) for o in offers if ref_is_media_type(o)]
         if got != want_offers:
             return ("invalid-acceptable-offers", "%s.acceptable_offers = %r, expected %r" % (kind, got, want_offers))
     elif family in ("charset", "encoding"):
@@ -396,6 +441,11 @@ def run(ctx):
             r = oracle_object(family, w)
             if r:
                 ctx.fail("object:%s:%s" % (family, r[0]), r[1], {"family": family, "value": w}, True, "object-" + family)
+        if family == "accept":
+            r = oracle_offer_pool()
+            n += len(OFFER_POOL)
+            if r:
+                ctx.fail("object:%s:%s" % (family, r[0]), r[1], {"family": family, "value": r[2], "pool": True}, True, "object-" + family)
         ctx.oracle_count("object-" + family, n, n)
     ctx.extra["rule"] = ("grammar-*: every string of length <= %d over a per-family atom alphabet, grammar-derived valid headers "
                          "(random OWS, empty elements, q spellings, quoted-pairs) and one-edit mutants of them; acceptance by "
@@ -459,6 +509,10 @@ def replay(ctx, path):
     r = oracle_object(family, w)
     if r:
         msgs.append(r[1])
+    if case.get("pool"):
+        r = oracle_offer_pool()
+        if r:
+            msgs.append(r[1])
     if msgs:
         print("VIOLATION property=C03 replay=%s" % path)
         for m in msgs:
